@@ -178,6 +178,16 @@ class Check:
         timeout_s = 30 if self.tier == "quick" else 120
         timeout_s = int(os.environ.get("VERIF_OB_TIMEOUT", timeout_s))
 
+        if self.obs and os.environ.get("VERIF_SKIP_CONFORMANCE") != "1":
+            # the NumPy / Python model against the real thing (exact comparison on concrete inputs): a mismatch is an engine error
+            try:
+                from . import conformance
+                ok, cov, ncov, fails = conformance.run(seed=self.seed)
+            except Exception as e:  # noqa: BLE001
+                ok, cov, ncov, fails = False, [], [], [("conformance harness crashed", str(e))]
+            self.extra["model_conformance"] = {"snippets_agreeing_with_numpy": len(cov), "not_covered": [n for n, _ in ncov]}
+            if not ok:
+                self.engine_errors.append(f"model conformance: {fails[:2]}")
         if self.engine_errors:
             for e in self.engine_errors:
                 print("ENGINE-ERROR", e, file=sys.stderr)
@@ -326,8 +336,20 @@ class Check:
 
     def replay(self, ob, r):
         req = {"obligation": ob.name, "model": r.model or {}, "spec": ob.meta["replay"], "seed": self.seed}
+        # the native search is driven by the function under contract and the replay spec: obligations that share both share the answer
+        # (only when the contract says the native search does not use the solver's model: replay spec has "shared": true)
+        if not (isinstance(ob.meta["replay"], dict) and ob.meta["replay"].get("shared")):
+            return self._replay(req)
+        key = json.dumps([ob.meta.get("func"), ob.meta["replay"]], sort_keys=True, default=str)
+        cache = self.__dict__.setdefault("_replay_cache", {})
+        if key in cache:
+            return cache[key]
+        cache[key] = res = self._replay(req)
+        return res
+
+    def _replay(self, req):
         try:
-            p = native(["replay", self.pid], stdin=json.dumps(req), timeout=600)
+            p = native(["replay", self.pid], stdin=json.dumps(req, default=str), timeout=600)
             if p.returncode != 0:
                 return {"failed": False, "error": p.stderr[-800:]}
             return json.loads(p.stdout.strip().splitlines()[-1])
